@@ -540,7 +540,7 @@ class Checker:
         self.law("associative(in-record, maybe operands)")
         if exp is None or len(exp) > 1:
             ctx.seen((op, ks, shapes))
-        if n == 3 and sum(1 for s in ctx.samples if isinstance(s, dict) and s.get("op") == "broadcast_shape/3") < 1 and exp is not None and len(exp) >= 2:
+        if n == 3 and sum(1 for s in ctx.samples if isinstance(s, dict) and s.get("op") == "broadcast_shape/3") < 1 and exp is not None and len(exp) >= 2 and len(set(shapes)) == 3 and all(len(x) > 0 for x in shapes):
             ctx.sample(dict(op="broadcast_shape/3", kinds=cfg, shapes=[list(s) for s in shapes], variadic=list(recs["V"][2]) if recs["V"][1] else None))
         return vals["V"]
 
@@ -572,7 +572,7 @@ class Checker:
             self.law("scalar_neutral")
         if exp is None or len(exp) > 1:
             ctx.seen(("bsm", m["menu"], bk, a, b))
-        if sum(1 for s_ in ctx.samples if isinstance(s_, dict) and s_.get("op") == "broadcast_shape(mixed)") < 1 and exp is not None and len(exp) >= 2 and m["menu"] == 5 and exp != a:
+        if sum(1 for s_ in ctx.samples if isinstance(s_, dict) and s_.get("op") == "broadcast_shape(mixed)") < 1 and exp is not None and len(exp) >= 2 and m["menu"] == 5 and exp != a and exp != b and bk == "array":
             ctx.sample(dict(op="broadcast_shape(mixed)", kinds="%s,%s" % (ak, bk), a=list(a), b=list(b), has_value=p[1], result=list(p[2]) if p[1] else None))
 
     def table_laws(self, dom, triples, quads):
@@ -705,7 +705,7 @@ class Checker:
             self.elements += n
         if int(np.prod(dst)) > 1:
             ctx.seen(("sbt", ks, src, dst))
-        if sum(1 for s in ctx.samples if isinstance(s, dict) and s.get("op") == "shape_broadcast_to") < 1 and off > 0 and n > 2:
+        if sum(1 for s in ctx.samples if isinstance(s, dict) and s.get("op") == "shape_broadcast_to") < 1 and off > 0 and n > 2 and len(oa) > 0 and 1 in fa[off:]:
             ctx.sample(dict(op="shape_broadcast_to", src=list(src), dst=list(dst), free_axes=fa, origin_axes=oa, src_indices_checked=n))
 
     # ---- views ----
